@@ -44,6 +44,8 @@ def veq(a, b):
     if isinstance(a, Cond) or isinstance(b, Cond):
         return cond_eq(a, b)
     if isinstance(a, values.SList) or isinstance(b, values.SList):
+        if not all(isinstance(x, (values.SList, list, tuple)) for x in (a, b)):
+            return SBool(False)        # a sequence never equals a scalar / record
         la = a.length if isinstance(a, values.SList) else Num(len(a))
         lb = b.length if isinstance(b, values.SList) else Num(len(b))
         k = sym.fresh_int("veq_k")
